@@ -181,7 +181,7 @@ func unitC11scripted(e common.Env, p *common.Part) {
 	var jobs []c11case
 	ns := []int{3}
 	if e.Thorough() {
-		ns = []int{3, 4}
+		ns = []int{3, 4, 5}
 	}
 	idx := 0
 	for _, n := range ns {
@@ -210,7 +210,7 @@ func unitC11scripted(e common.Env, p *common.Part) {
 			}
 		}
 		// loud mode: real synchroniser, deadline with PRNG phase, k sampled over a range that includes the sync phase
-		for i := 0; i < e.Pick(40, 400); i++ {
+		for i := 0; i < e.Pick(40, 1500); i++ {
 			r := e.Rng("c11loud", n, i)
 			jobs = append(jobs, c11case{N: n, Mode: "loud", Sign: i%2 == 1, Mute: uint16(1 + r.Intn(n)), After: r.Intn(60), Withhold: -1})
 		}
